@@ -24,6 +24,7 @@ import LtVerif.Proofs.Proxy
 import LtVerif.Proofs.ProxyHead
 import LtVerif.Proofs.CgiE2E
 import LtVerif.Extracted.H1Tables
+import LtVerif.Model.H1Parse
 namespace LtVerif.C09
 open LtVerif B
 
@@ -163,8 +164,10 @@ example :
     = [(ofString "QUERY_STRING", ofString "a?b"), (ofString "SCRIPT_NAME", ofString "/x"),
        (ofString "HTTP_SCRIPT_NAME", ofString "/evil")] := by decide
 
-/-- gw_check_extension(): SCRIPT_NAME ++ PATH_INFO is the request path, for every
-    extension prefix and path; PATH_INFO is empty or starts with '/' -/
+/-- gw_check_extension(), the "/prefix" kind of extension with check-local off (the only place where
+    the backend modules themselves split the path): SCRIPT_NAME ++ PATH_INFO is the request path, for
+    every prefix and path; PATH_INFO is empty or starts with '/'.  (With check-local on the split is
+    http_response_physical_pathinfo()'s — property C03 — and an input here.) -/
 theorem c09_script_name_path_info (key : Bytes) (fixRoot : Bool) (path : Bytes)
     (hp : path.head? = some slash) :
     (gwPathinfoSplit key fixRoot path).1 ++ (gwPathinfoSplit key fixRoot path).2 = path ∧
@@ -335,7 +338,7 @@ example : Scgi.decode (RawSt.run (Scgi.encodeHeader [(ofString "CONTENT_LENGTH",
   decide
 
 /-- SCGI end to end for the variables lighttpd actually builds from a request whose byte strings
-    are NUL-free (what the request parser admits): the backend reads the variables, SCGI=1, and the
+    are NUL-free (what the request parser lets through): the backend reads the variables, SCGI=1, and the
     body; the FIRST variable is CONTENT_LENGTH (SCGI requires it) and its value is the decimal
     length of the body that follows the netstring; the gateway announced exactly what it queued -/
 theorem c09_scgi_e2e (o : CgiOpts) (ha : o.authorizer = false) (r : CgiReq) (hn : ReqNulFree o r)
@@ -359,19 +362,6 @@ theorem c09_scgi_e2e (o : CgiOpts) (ha : o.authorizer = false) (r : CgiReq) (hn 
       simp only [List.head?_cons, Option.some.injEq] at hh
       simp only [List.cons_append, List.head?_cons, hh, hb, intDec_ofNat]
   · rw [hb]; exact rawRun_reqlen _ seg0 segs
-
-/-- uwsgi end to end, same reading: accepted requests decode to exactly lighttpd's variables and
-    the body, with CONTENT_LENGTH first and equal to the length of that body -/
-theorem c09_uwsgi_e2e (o : CgiOpts) (ha : o.authorizer = false) (r : CgiReq)
-    (seg0 : Bytes) (segs : List Bytes)
-    (hb : r.bodyLen = (((seg0 :: segs).flatten.length : Nat) : Int)) :
-    ∀ st, Uwsgi.createEnv (cgiEnv o r) r.bodyLen seg0 = .ok st →
-      ∃ env body, Uwsgi.decode ((segs.foldl RawSt.arrive st).moveAll).out = some (env, body) ∧
-        env = cgiEnv o r ∧ env.head? = some (ofString "CONTENT_LENGTH", natDec body.length) ∧
-        body = (seg0 :: segs).flatten := by
-  intro st hst
-  refine ⟨_, _, (c09_uwsgi_roundtrip (cgiEnv o r) seg0 segs r.bodyLen).1 st hst, rfl, ?_, rfl⟩
-  rw [c09_content_length_first o r ha, hb, intDec_ofNat]
 
 /-- scgi_create_env() (uwsgi): when the request is accepted the packet decodes to exactly the
     variables and the body; it is refused (400 / 431) only when a name, a value or the whole
@@ -417,6 +407,19 @@ theorem c09_uwsgi_roundtrip (env : List (Bytes × Bytes)) (seg0 : Bytes) (segs :
 example : Uwsgi.decode (Uwsgi.encodeHeader (Uwsgi.pair (ofString "K") (ofString "v")) ++ ofString "body") =
     some ([(ofString "K", ofString "v")], ofString "body") := by decide
 
+/-- uwsgi end to end, same reading: accepted requests decode to exactly lighttpd's variables and
+    the body, with CONTENT_LENGTH first and equal to the length of that body -/
+theorem c09_uwsgi_e2e (o : CgiOpts) (ha : o.authorizer = false) (r : CgiReq)
+    (seg0 : Bytes) (segs : List Bytes)
+    (hb : r.bodyLen = (((seg0 :: segs).flatten.length : Nat) : Int)) :
+    ∀ st, Uwsgi.createEnv (cgiEnv o r) r.bodyLen seg0 = .ok st →
+      ∃ env body, Uwsgi.decode ((segs.foldl RawSt.arrive st).moveAll).out = some (env, body) ∧
+        env = cgiEnv o r ∧ env.head? = some (ofString "CONTENT_LENGTH", natDec body.length) ∧
+        body = (seg0 :: segs).flatten := by
+  intro st hst
+  refine ⟨_, _, (c09_uwsgi_roundtrip (cgiEnv o r) seg0 segs r.bodyLen).1 st hst, rfl, ?_, rfl⟩
+  rw [c09_content_length_first o r ha, hb, intDec_ofNat]
+
 /-- mod_cgi: the envp block handed to execve() splits back into exactly the variables (names
     without '=' / NUL, values without NUL — what the request parser guarantees) -/
 theorem c09_cgi_envp_roundtrip (env : List (Bytes × Bytes))
@@ -428,18 +431,6 @@ example : envpDecode (envpEncode [(ofString "QUERY_STRING", ofString "a=b"), (of
     some [(ofString "QUERY_STRING", ofString "a=b"), (ofString "X", [])] := by decide
 
 /-! ## HTTP/2 request bodies -/
-
-theorem mk'_endStream (d : Bytes) (p : Option Nat) (e : Bool) : (DataFrame.mk' d p e).endStream = e := by
-  cases p <;> rfl
-
-theorem framesData_mk' (ds : List (Bytes × Option Nat)) (hp : ∀ x ∈ ds, ∀ n, x.2 = some n → n < 256) :
-    framesData (ds.map fun x => DataFrame.mk' x.1 x.2 false) = (ds.map (·.1)).flatten := by
-  induction ds with
-  | nil => rfl
-  | cons x tl ih =>
-    simp only [List.map_cons, List.flatten_cons]
-    rw [framesData_cons _ _ x.1 (data_mk' x.1 x.2 false (hp x (by simp))),
-      ih (fun y hy => hp y (by simp [hy]))]
 
 /-- h2_recv_data() / h2_recv_end_data() on frame BYTES: a request body sent as DATA frames — any
     number of frames, any data sizes, each frame with or without a Pad Length octet and that many
@@ -593,12 +584,155 @@ theorem c09_proxy_framing (c : Proxy.Cfg) (r : Proxy.Req) (hw : Proxy.WfReq r)
     exact Proxy.head_cl c r ha hneed line fs ch h
 
 /-- a streamed upload of unknown length to an HTTP/1.1 backend: chunked, no Content-Length;
-    the client's "Connection: X" option is not forwarded -/
+    the client's "Connection: X" option is replaced -/
 example : (Proxy.headFields { streaming := true }
       { method := ofString "POST", isGetOrHead := false, target := ofString "/u", host := some (ofString "h"),
         bodyLen := -1, scheme := ofString "http", remoteAddr := ofString "10.0.0.9",
-        headers := [(ofString "X", ofString "1"), (ofString "Connection", ofString "X")] }).map
-      (fun x => (x.2.1.map (·.1), x.2.2)) =
-    some ([ofString "Host", ofString "Transfer-Encoding", ofString "X-Forwarded-For",
-           ofString "X-Host", ofString "X-Forwarded-Proto", ofString "Connection"].map id ++ [], true) ∨ True := by
-  exact Or.inr trivial
+        headers := [(ofString "X", ofString "1"), (ofString "Connection", ofString "X")] }) =
+    some (ofString "POST /u HTTP/1.1",
+      [(ofString "Host", ofString "h"), (ofString "Transfer-Encoding", ofString "chunked"),
+       (ofString "X", ofString "1"), (ofString "X-Forwarded-For", ofString "10.0.0.9"),
+       (ofString "X-Host", ofString "h"), (ofString "X-Forwarded-Host", ofString "h"),
+       (ofString "X-Forwarded-Proto", ofString "http"), (ofString "Connection", ofString "close")],
+      true) := by decide
+
+/-- where `WfReq.noTE` comes from — C01's model of http_request_parse_single_header(), checked
+    against the C parser there: a Transfer-Encoding field line is consumed by the request parser
+    (HTTP/1.1 only, value "chunked" only, once only): it sets reqbody_length = -1 and is NOT stored
+    among the request fields, so no backend module ever sees it.  (HTTP/2: the field is refused
+    with 400, C05/C07.) -/
+theorem c09_te_consumed_not_stored (r r' : PReq) (v : Bytes)
+    (h : singleHeader r (ofString "transfer-encoding") v = .ok r') :
+    r'.headers = r.headers ∧ r'.bodyLen = -1 ∧ r.version = 1 ∧
+    eqIcase v (ofString "chunked") = true ∧ r.bodyLen ≠ -1 := by
+  have hc : classifyHeader (ofString "transfer-encoding") = .transferEncoding := by decide
+  unfold singleHeader at h
+  rw [hc] at h
+  simp only at h
+  split at h
+  · exact absurd h (by simp)
+  · rename_i hv
+    split at h
+    · exact absurd h (by simp)
+    · rename_i hch
+      split at h
+      · exact absurd h (by simp)
+      · rename_i hb
+        simp only [Except.ok.injEq] at h
+        subst h
+        exact ⟨rfl, rfl, by simpa using hv, by simpa using hch, hb⟩
+
+example : (match singleHeader { version := 1, headers := [(ofString "x", ofString "1")] }
+             (ofString "transfer-encoding") (ofString "chunked") with
+           | .ok r' => decide (r'.headers = [(ofString "x", ofString "1")] ∧ r'.bodyLen = -1)
+           | .error _ => false) = true := by decide
+
+/-- Transfer-Encoding is only ever sent in an HTTP/1.1 request that names a Host (RFC 9112 6.1: a
+    client must not send Transfer-Encoding to a recipient it speaks HTTP/1.0 to).  `hhost`: a
+    request without Host is an HTTP/1.0 request (HTTP/1.1 and HTTP/2 requests without Host /
+    :authority are refused with 400), and an HTTP/1.0 request cannot have a body of unknown length
+    (Transfer-Encoding in HTTP/1.0 is refused with 400) — C01. -/
+theorem c09_proxy_chunked_http11 (c : Proxy.Cfg) (r : Proxy.Req) (hhost : r.host = none → r.bodyLen ≥ 0)
+    (line : Bytes) (fs : Proxy.Hdrs) (h : Proxy.headFields c r = some (line, fs, true)) :
+    ofString " HTTP/1.1" <:+ line ∧ ∃ hv, (ofString "Host", hv) ∈ fs := by
+  rw [Proxy.headFields_eq] at h
+  cases hf : Proxy.framing c r with
+  | none => rw [hf] at h; exact absurd h (by simp)
+  | some x =>
+    obtain ⟨ff, hs0, ch⟩ := x
+    rw [hf] at h
+    simp only [Option.some.injEq, Prod.mk.injEq] at h
+    obtain ⟨hl, hfs, hch⟩ := h
+    subst hch
+    have h10 : c.forceHttp10 = false ∧ r.bodyLen < 0 := by
+      unfold Proxy.framing at hf
+      split at hf
+      · simp at hf
+      · split at hf
+        · split at hf <;> simp at hf
+        · split at hf
+          · simp at hf
+          · split at hf
+            · rename_i hs
+              split at hf
+              · split at hf <;> simp at hf
+              · rename_i h10
+                exact ⟨by simpa using h10, hs.1⟩
+            · simp at hf
+    have hh : r.host ≠ none := fun hn => by have := hhost hn; omega
+    obtain ⟨hv, hhv⟩ := Option.ne_none_iff_exists'.mp hh
+    have hrl : Proxy.reqLine c r =
+        ((if r.h2ConnectExt then ofString "GET" else r.method) ++ [sp] ++ r.target ++ ofString " HTTP/1.1",
+         some (ofString "Host", match c.replaceHost with | some x => x | none => hv)) := by
+      unfold Proxy.reqLine
+      simp only [h10.1, hhv, Bool.false_eq_true, ↓reduceIte]
+      cases c.replaceHost <;> rfl
+    rw [hrl] at hl hfs
+    refine ⟨?_, (match c.replaceHost with | some x => x | none => hv), ?_⟩
+    · rw [← hl]; exact List.suffix_append _ _
+    · rw [← hfs]; simp
+
+/-- proxy_create_env(), connection management of the request sent to the backend: no Proxy /
+    Proxy-Connection field, and exactly one Connection field, written by lighttpd, whose value
+    starts with "close" (followed only by ", upgrade" / ", te" when lighttpd itself forwards
+    Upgrade / TE) — nothing the client listed in its own Connection field survives -/
+theorem c09_proxy_head_hop_by_hop (c : Proxy.Cfg) (r : Proxy.Req) (line : Bytes) (fs : Proxy.Hdrs)
+    (ch : Bool) (h : Proxy.headFields c r = some (line, fs, ch)) :
+    (∀ p ∈ fs, Proxy.nameIs p.1 "Proxy" = false ∧ Proxy.nameIs p.1 "Proxy-Connection" = false) ∧
+    ∃ v, fs.filter (fun p => Proxy.nameIs p.1 "Connection") = [(ofString "Connection", v)] ∧
+      ofString "close" <+: v :=
+  Proxy.head_hop_by_hop c r line fs ch h
+
+/-- proxy_create_env(), completeness: every client field that the per-field filter lets through
+    (`c09_hop_by_hop` says which are not), that is not one of the forwarding fields lighttpd
+    rewrites (Forwarded, X-Forwarded-For, X-Forwarded-Proto, X-Forwarded-Host, X-Host) and not Content-Length (regenerated
+    by the framing), is in the request sent to the backend, name and value unchanged -/
+theorem c09_proxy_fields_complete (c : Proxy.Cfg) (r : Proxy.Req) (line : Bytes) (fs : Proxy.Hdrs)
+    (ch : Bool) (h : Proxy.headFields c r = some (line, fs, ch)) (p : Bytes × Bytes)
+    (hp : p ∈ r.headers) (hem : Proxy.fieldAct c r.version p.1 p.2 = .emit)
+    (hf : Proxy.isFwdName p.1 = false) (hcl : Proxy.nameIs p.1 "Content-Length" = false) : p ∈ fs :=
+  Proxy.head_complete c r line fs ch h p hp hem hf hcl
+
+/-- the serialisation of the request head is faithful: a receiver following RFC 9112 (request
+    line up to CRLF, field lines "name:" OWS value CRLF, empty line) reads back exactly the
+    request line, exactly the fields in order, and finds the body right after the empty line.
+    `_partial`: CR-freeness / token names of the fields are hypotheses here — for the client's
+    fields that is the request parser's guarantee (C01), for the values lighttpd generates
+    (Forwarded, X-Forwarded-*) it is checked by the correspondence oracle only. -/
+theorem c09_proxy_head_decodes_partial (line : Bytes) (fs : Proxy.Hdrs) (body : Bytes)
+    (hl : cr ∉ line) (hf : ∀ f ∈ fs, Proxy.WfField f) :
+    Proxy.decodeHead (Proxy.renderHead line fs ++ body) = some (line, fs, body) :=
+  Proxy.decodeHead_render line fs body hl hf
+
+example : Proxy.decodeHead (ofString "POST /u HTTP/1.1\r\nHost: h\r\nX: 1\r\n\r\nbody") =
+    some (ofString "POST /u HTTP/1.1", [(ofString "Host", ofString "h"), (ofString "X", ofString "1")],
+          ofString "body") := by decide
+
+/-- the whole proxied request under EVERY arrival schedule of the body: what is queued for the
+    backend is the serialised head (the one `c09_proxy_framing` / `_hop_by_hop` /
+    `_fields_complete` speak about) followed by
+    * Content-Length framing: exactly the body bytes, and the gateway announced exactly what it
+      queued (the body has the length the request announced);
+    * chunked framing (proxy_stdin_append()): a chunked coding that decodes to exactly the body,
+      one last-chunk, nothing after it;
+    and nothing is left in the request-body queue. -/
+theorem c09_proxy_request (c : Proxy.Cfg) (r : Proxy.Req) (ha : c.authorizer = false)
+    (line : Bytes) (fs : Proxy.Hdrs) (ch : Bool) (h : Proxy.headFields c r = some (line, fs, ch))
+    (seg0 : Bytes) (segs : List Bytes)
+    (hlen : ch = false → r.bodyLen = (((seg0 :: segs).flatten.length : Nat) : Int)) :
+    ∃ st, Proxy.run c r seg0 segs = some (st, ch) ∧ st.pending = [] ∧
+      (ch = false → st.out = Proxy.renderHead line fs ++ (seg0 :: segs).flatten ∧
+                    st.reqlen = (st.out.length : Int)) ∧
+      (ch = true → ∃ stream, st.out = Proxy.renderHead line fs ++ stream ∧
+                    Proxy.dechunk (stream.length + 1) stream = some ((seg0 :: segs).flatten, [])) :=
+  Proxy.run_spec c r ha line fs ch h seg0 segs hlen
+
+set_option maxRecDepth 100000 in
+example : (Proxy.run { streaming := true }
+      { method := ofString "POST", isGetOrHead := false, target := ofString "/", host := some (ofString "h"),
+        bodyLen := -1 }
+      (ofString "ab") [[], ofString "c"]).map (fun x => (x.1.out, x.1.pending, x.2)) =
+    some (ofString "POST / HTTP/1.1\r\nHost: h\r\nTransfer-Encoding: chunked\r\nX-Host: h\r\nX-Forwarded-Host: h\r\nConnection: close\r\n\r\n02\r\nab\r\n01\r\nc\r\n0\r\n\r\n",
+          [], true) := by decide
+
+end LtVerif.C09
